@@ -397,3 +397,519 @@ Proof.
     destruct Er. constructor; simpl; auto.
   - eapply do_sd_B; eauto.
 Qed.
+
+(* ---- group C: the ledger --------------------------------------------------------- *)
+
+Definition linfo (s : state) (t : task) : tinfo := nth t (ledger s) ti0.
+
+Definition led_ok_at (led : list tinfo) (tk : nat) (ws : list (nat * wpc)) (t : task) : Prop :=
+  let i := nth t led ti0 in
+  match ti_st i with
+  | Queued => tk <= t /\ ti_svc i = 0 /\ ti_cnc i = 0
+  | Running w => t < tk /\ In (w, WRun t) ws /\ ti_svc i = 1 /\ ti_cnc i = 0
+  | Done => t < tk /\ ti_svc i = 1 /\ ti_cnc i = 0
+  | Cancelled => t < tk /\ ti_svc i = 0 /\ ti_cnc i = 1
+  end.
+
+Definition led_ok (s : state) (t : task) : Prop := led_ok_at (ledger s) (taken s) (workers s) t.
+
+Record InvC (s : state) : Prop := {
+  C_taken : taken s <= length (ledger s);
+  C_queue : queue s = seq (taken s) (length (ledger s) - taken s);
+  C_led : forall t, t < length (ledger s) -> led_ok s t;
+  C_run : forall w t, In (w, WRun t) (workers s) ->
+            t < length (ledger s) /\ ti_st (linfo s t) = Running w
+}.
+
+Lemma InvC_init : InvC init.
+Proof.
+  constructor; simpl; auto.
+  - intros t H. lia.
+  - intros w t [].
+Qed.
+
+Definition same_runs (ws ws' : list (nat * wpc)) : Prop :=
+  forall v t, In (v, WRun t) ws <-> In (v, WRun t) ws'.
+
+Lemma same_runs_refl : forall ws, same_runs ws ws.
+Proof. intros ws v t. tauto. Qed.
+
+Lemma same_runs_set_pc : forall ws w old pc,
+  NoDup (map fst ws) -> In (w, old) ws -> (forall t, old <> WRun t) -> (forall t, pc <> WRun t) ->
+  same_runs ws (set_pc w pc ws).
+Proof.
+  intros ws w old pc Hnd Hin Ho Hp v t. rewrite In_set_pc. split.
+  - intros Hv. right. split; auto. intro; subst v.
+    apply (Ho t). eapply In_unique; eauto.
+  - intros [[_ [Hd _]]|[_ Hv]]; auto. exfalso. eapply Hp; eauto.
+Qed.
+
+Lemma same_runs_del_w : forall ws w old,
+  NoDup (map fst ws) -> In (w, old) ws -> (forall t, old <> WRun t) -> same_runs ws (del_w w ws).
+Proof.
+  intros ws w old Hnd Hin Ho v t. rewrite In_del_w. split.
+  - intros Hv. split; auto. intro; subst v. apply (Ho t). eapply In_unique; eauto.
+  - tauto.
+Qed.
+
+Lemma same_runs_wake_all : forall ws, same_runs ws (wake_all ws).
+Proof.
+  intros ws v t. rewrite In_wake_all. split.
+  - intros Hv. right. split; auto. discriminate.
+  - intros [[Hd _]|[_ Hv]]; auto. discriminate.
+Qed.
+
+Lemma same_runs_new : forall ws (new : list nat), same_runs ws (ws ++ map (fun x => (x, WAcq)) new).
+Proof.
+  intros ws new v t. rewrite in_app_iff. split; auto.
+  intros [Hv|Hv]; auto. apply in_map_iff in Hv. destruct Hv as [x [Hx _]]. discriminate.
+Qed.
+
+Lemma InvC_frame : forall s s',
+  InvC s -> ledger s' = ledger s -> taken s' = taken s -> queue s' = queue s ->
+  same_runs (workers s) (workers s') -> InvC s'.
+Proof.
+  intros s s' I Hl Ht Hq Hr. destruct I.
+  constructor; unfold led_ok, linfo in *; rewrite ?Hl, ?Ht, ?Hq; auto.
+  - intros t Hlt. specialize (C_led0 t Hlt). unfold led_ok_at in *.
+    destruct (ti_st (nth t (ledger s) ti0)); auto.
+    destruct C_led0 as [H1 [H2 H3]]. split; auto. split; auto. apply Hr; auto.
+  - intros w t Hin. apply Hr in Hin. auto.
+Qed.
+
+Lemma notify_q_frame : forall k s s' l, InvA s -> notify_q k s = Some (s', l) ->
+  ledger s' = ledger s /\ taken s' = taken s /\ queue s' = queue s /\
+  same_runs (workers s) (workers s') /\ sd s' = sd s /\ sd_snap s' = sd_snap s.
+Proof.
+  intros k s s' l IA H. unfold notify_q in H.
+  destruct (qwait s) as [|q0 qr] eqn:Eq.
+  - inv H. refine (conj eq_refl (conj eq_refl (conj eq_refl (conj _ (conj eq_refl eq_refl))))).
+    apply same_runs_refl.
+  - destruct (nth_error (q0 :: qr) k) as [w|] eqn:En; [|discriminate]. inv H. simpl.
+    refine (conj eq_refl (conj eq_refl (conj eq_refl (conj _ (conj eq_refl eq_refl))))).
+    eapply same_runs_set_pc with (old := WWait).
+    + apply nodup_ws; auto.
+    + apply (A_qw s IA). rewrite Eq. eapply nth_error_In; eauto.
+    + discriminate.
+    + discriminate.
+Qed.
+
+Lemma seq_snoc : forall a n, seq a (S n) = seq a n ++ [a + n].
+Proof. intros. apply seq_S. Qed.
+
+Definition add_state (s : state) : state :=
+  mkState (queue s ++ [length (ledger s)]) (threads s) (stop_count s) (active_count s) (lock s)
+    (qwait s) (xwait s) (workers s) (sd s) (sd_cancel s)
+    (ledger s ++ [ti0]) (requested s) (taken s) (sd_snap s).
+
+Lemma add_state_C : forall s, InvC s -> InvC (add_state s).
+Proof.
+  intros s I. destruct I. unfold add_state. constructor; unfold led_ok, linfo in *; simpl.
+  - rewrite app_length. simpl. lia.
+  - rewrite app_length. simpl.
+    replace (length (ledger s) + 1 - taken s) with (S (length (ledger s) - taken s)) by lia.
+    rewrite seq_snoc. rewrite <- C_queue0. f_equal. f_equal. lia.
+  - intros t Hlt. rewrite app_length in Hlt. simpl in Hlt.
+    unfold led_ok_at. destruct (Nat.eq_dec t (length (ledger s))) as [E|E].
+    + subst t. rewrite app_nth2; [|lia]. rewrite Nat.sub_diag. simpl. repeat split; auto.
+    + assert (Hlt' : t < length (ledger s)) by lia. rewrite app_nth1; auto.
+      apply (C_led0 t Hlt').
+  - intros w t Hin. destruct (C_run0 w t Hin) as [H1 H2]. rewrite app_length. simpl.
+    split; [lia|]. rewrite app_nth1; auto.
+Qed.
+
+Lemma do_add_eq : forall b k s, do_add b k s =
+  match notify_q k (add_state s) with
+  | None => None
+  | Some (s2, l) => Some (s2, LSubmit b (length (ledger s)) :: l)
+  end.
+Proof. reflexivity. Qed.
+
+Lemma add_state_A : forall s, InvA s -> InvA (add_state s).
+Proof. intros s I. unfold add_state. apply with_queue_ledger_A; auto. Qed.
+
+Lemma do_add_C : forall b k s s' l, InvA s -> InvC s -> do_add b k s = Some (s', l) -> InvC s'.
+Proof.
+  intros b k s s' l IA IC H. rewrite do_add_eq in H.
+  destruct (notify_q k (add_state s)) as [[s2 l2]|] eqn:E; [|discriminate]. inv H.
+  destruct (notify_q_frame _ _ _ _ (add_state_A s IA) E) as [F1 [F2 [F3 [F4 _]]]].
+  apply (InvC_frame (add_state s) s'); auto. apply add_state_C; auto.
+Qed.
+
+Lemma do_resize_runs : forall n s s' l, InvA s -> do_resize n s = (s', l) ->
+  same_runs (workers s) (workers s').
+Proof.
+  intros n s s' l IA H. unfold do_resize in H.
+  destruct (length (threads s) - stop_count s <? n).
+  - destruct (spawn (n - (length (threads s) - stop_count s)) 0 (threads s) (workers s) (active_count s) [])
+      as [[[ths ws] act] ls] eqn:Es.
+    inv H. apply spawn_spec in Es; [|apply (A_nodup s IA)].
+    destruct Es as [new [H1 [H2 _]]]. subst. simpl. apply same_runs_new.
+  - destruct (n <? length (threads s) - stop_count s); inv H; simpl.
+    + apply same_runs_wake_all.
+    + apply same_runs_refl.
+Qed.
+
+Lemma do_resize_C : forall n s s' l, InvA s -> InvC s -> do_resize n s = (s', l) -> InvC s'.
+Proof.
+  intros n s s' l IA IC H.
+  destruct (do_resize_frame _ _ _ _ H) as [_ [_ [_ [F4 [F5 [F6 _]]]]]].
+  eapply InvC_frame; eauto. eapply do_resize_runs; eauto.
+Qed.
+
+Lemma seq_head : forall a n t q, seq a n = t :: q -> t = a /\ q = seq (S a) (n - 1) /\ 0 < n.
+Proof.
+  intros a n t q H. destruct n; simpl in H; [discriminate|]. inv H.
+  replace (S n - 1) with n by lia. repeat split; auto. lia.
+Qed.
+
+(* removing the head t of the queue: the ledger entry of t changes from Queued
+   to [st'], the workers change from ws to ws' *)
+Lemma take_head_C : forall s s' t q (f : tinfo -> tinfo),
+  InvC s -> queue s = t :: q ->
+  queue s' = q -> ledger s' = upd t f (ledger s) -> taken s' = S (taken s) ->
+  (forall i, ti_st i = Queued -> ti_svc i = 0 -> ti_cnc i = 0 ->
+     led_ok_at (upd t f (ledger s)) (S (taken s)) (workers s') t) ->
+  (forall v u, u <> t -> In (v, WRun u) (workers s) -> In (v, WRun u) (workers s')) ->
+  (forall v u, In (v, WRun u) (workers s') ->
+      (u = t /\ ti_st (f (linfo s t)) = Running v) \/ In (v, WRun u) (workers s)) ->
+  InvC s'.
+Proof.
+  intros s s' t q f I Hq Hq' Hl' Ht' Hnew Hkeep Hback.
+  destruct I. rewrite Hq in C_queue0. symmetry in C_queue0.
+  apply seq_head in C_queue0. destruct C_queue0 as [Et [Eq Hpos]]. subst t.
+  assert (Hlt : taken s < length (ledger s)) by lia.
+  assert (Hold : ti_st (linfo s (taken s)) = Queued /\ ti_svc (linfo s (taken s)) = 0 /\ ti_cnc (linfo s (taken s)) = 0).
+  { specialize (C_led0 (taken s) Hlt). unfold led_ok, led_ok_at, linfo in *.
+    destruct (ti_st (nth (taken s) (ledger s) ti0)); try (destruct C_led0; lia).
+    tauto. }
+  destruct Hold as [O1 [O2 O3]].
+  constructor; unfold led_ok, linfo in *; rewrite ?Hq', ?Hl', ?Ht'; rewrite ?upd_length.
+  - lia.
+  - rewrite Eq. f_equal. lia.
+  - intros u Hu. destruct (Nat.eq_dec u (taken s)) as [E|E].
+    + subst u. eapply Hnew; eauto.
+    + specialize (C_led0 u Hu). unfold led_ok_at in *. rewrite upd_nth_other; auto.
+      destruct (ti_st (nth u (ledger s) ti0)).
+      * destruct C_led0 as [H1 H2]. split; auto. lia.
+      * destruct C_led0 as [H1 [H2 H3]]. split; [lia|]. split; auto.
+      * destruct C_led0 as [H1 H2]. split; auto.
+      * destruct C_led0 as [H1 H2]. split; auto.
+  - intros v u Hin. apply Hback in Hin. destruct Hin as [[Eu Hr]|Hin].
+    + subst u. split; auto. rewrite upd_nth_same; auto.
+    + destruct (C_run0 v u Hin) as [H1 H2]. split; auto.
+      rewrite upd_nth_other; auto. intro; subst u. congruence.
+Qed.
+
+Lemma do_work_C : forall w pc s s' l,
+  InvA s -> InvC s -> In (w, pc) (workers s) -> pc = WAcq \/ pc = WNotified ->
+  do_work w pc s = Some (s', l) -> InvC s'.
+Proof.
+  intros w pc s s' l IA IC Hin Hpc H. unfold do_work in H.
+  pose proof (nodup_ws s IA) as Hnd.
+  assert (Hnr : forall t, pc <> WRun t) by (intros t; destruct Hpc; subst; discriminate).
+  destruct (stop_count s) as [|st] eqn:Est.
+  - destruct (queue s) as [|t q] eqn:Eq; inv H.
+    + (* park *)
+      eapply InvC_frame; eauto. simpl.
+      eapply same_runs_set_pc; eauto. discriminate.
+    + (* pop *)
+      eapply (take_head_C s _ t q); simpl; eauto; simpl.
+      * intros i I1 I2 I3. unfold led_ok_at. rewrite upd_nth_same.
+        2:{ destruct IC. rewrite Eq in C_queue0. symmetry in C_queue0.
+            apply seq_head in C_queue0. lia. }
+        simpl. destruct IC. rewrite Eq in C_queue0. symmetry in C_queue0.
+        apply seq_head in C_queue0. destruct C_queue0 as [Et [_ Hpos]]. subst t.
+        assert (Hlt : taken s < length (ledger s)) by lia.
+        specialize (C_led0 _ Hlt). unfold led_ok, led_ok_at in C_led0.
+        destruct (ti_st (nth (taken s) (ledger s) ti0)) eqn:Est'; try (destruct C_led0; lia).
+        destruct C_led0 as [_ [S1 S2]].
+        split; [lia|]. split; [apply In_set_pc; left; repeat split; auto; eapply In_fst; eauto|].
+        split; [rewrite S1; auto|auto].
+      * intros v u Hu Hv. apply In_set_pc. right. split; auto.
+        intro; subst v. apply (Hnr u). eapply In_unique; eauto.
+      * intros v u Hv. apply In_set_pc in Hv. destruct Hv as [[Ev [Eu _]]|[_ Hv]]; auto.
+        inv Eu. left. split; auto.
+  - assert (E : s' = exit_state w (match pc with WNotified => (active_count s + 1)%Z | _ => active_count s end - 1)%Z st s).
+    { destruct (queue s) eqn:Eq; inv H; unfold exit_state; rewrite Eq; reflexivity. }
+    subst s'. eapply InvC_frame; eauto. simpl.
+    eapply same_runs_del_w; eauto.
+Qed.
+
+Lemma do_finish_C : forall w t r s s' l,
+  InvA s -> InvC s -> In (w, WRun t) (workers s) -> do_finish w t r s = (s', l) -> InvC s'.
+Proof.
+  intros w t r s s' l IA IC Hin H. unfold do_finish in H. inv H.
+  pose proof (nodup_ws s IA) as Hnd.
+  destruct IC. destruct (C_run0 w t Hin) as [Ht Hst].
+  pose proof (C_led0 t Ht) as Hok. unfold led_ok, led_ok_at, linfo in *. rewrite Hst in Hok.
+  destruct Hok as [K1 [K2 [K3 K4]]].
+  constructor; unfold led_ok, linfo; simpl; rewrite ?upd_length; auto.
+  - intros u Hu. unfold led_ok_at. destruct (Nat.eq_dec u t) as [E|E].
+    + subst u. rewrite upd_nth_same; auto. simpl. auto.
+    + rewrite upd_nth_other; auto. specialize (C_led0 u Hu).
+      destruct (ti_st (nth u (ledger s) ti0)) eqn:Eu; auto.
+      destruct C_led0 as [H1 [H2 H3]]. split; auto. split; auto.
+      apply In_set_pc. right. split; auto. intro; subst w0.
+      assert (WRun u = WRun t) by (eapply In_unique; eauto). congruence.
+  - intros v u Hv. apply In_set_pc in Hv. destruct Hv as [[_ [Hd _]]|[Hne Hv]]; [discriminate|].
+    destruct (C_run0 v u Hv) as [H1 H2]. split; auto.
+    rewrite upd_nth_other; auto. intro; subst u. rewrite Hst in H2. congruence.
+Qed.
+
+Lemma set_sd_C : forall s pc lk xw snap, InvC s -> InvC (set_sd s pc lk xw snap).
+Proof. intros. eapply InvC_frame; eauto. apply same_runs_refl. Qed.
+
+Lemma do_sd_C : forall e s s' l, InvC s -> do_sd e s = Some (s', l) -> InvC s'.
+Proof.
+  intros e s s' l I H. unfold do_sd in H.
+  destruct (sd s) eqn:Esd; try discriminate.
+  - destruct (free s); [|discriminate].
+    assert (L : forall ls r, (if sd_cancel s
+                 then Some (set_sd s SdCancel (Some OShutdown) false (queue s), ls)
+                 else Some (set_sd s (SdDone false) None false (sd_snap s), ls ++ [LSdReturn false])) = Some r ->
+                 InvC (fst r)).
+    { intros ls r Hr. destruct (sd_cancel s); inv Hr; simpl; apply set_sd_C; auto. }
+    destruct (threads s) eqn:Et.
+    + apply L in H. auto.
+    + destruct e.
+      * apply L in H. auto.
+      * inv H. apply set_sd_C; auto.
+  - inv H. apply set_sd_C; auto.
+  - destruct (queue s) as [|t q] eqn:Eq; inv H.
+    + eapply InvC_frame; eauto. simpl. apply same_runs_wake_all.
+    + eapply (take_head_C s _ t q); simpl; eauto; simpl.
+      * intros i I1 I2 I3. unfold led_ok_at.
+        destruct I. rewrite Eq in C_queue0. symmetry in C_queue0.
+        apply seq_head in C_queue0. destruct C_queue0 as [Et [_ Hpos]]. subst t.
+        assert (Hlt : taken s < length (ledger s)) by lia.
+        rewrite upd_nth_same; auto. simpl.
+        specialize (C_led0 _ Hlt). unfold led_ok, led_ok_at in C_led0.
+        destruct (ti_st (nth (taken s) (ledger s) ti0)) eqn:Est'; destruct C_led0; lia.
+Qed.
+
+Theorem step_C : forall s c s' l, InvA s -> InvC s -> step s c = Some (s', l) -> InvC s'.
+Proof.
+  intros s c s' l IA IC H. pose proof (nodup_ws s IA) as Hnd.
+  destruct c; simpl in H.
+  - destruct (free s); [|discriminate]. eapply do_add_C; eauto.
+  - destruct (free s); [|discriminate]. inv H. eapply do_resize_C; eauto.
+  - destruct (free s) eqn:Ef; [|discriminate].
+    destruct (get_pc w (workers s)) as [pc|] eqn:Eg; [|discriminate].
+    apply get_pc_In in Eg; auto.
+    destruct pc; try discriminate; eapply do_work_C; eauto.
+  - destruct (free s); [|discriminate].
+    destruct (get_pc w (workers s)) as [[]|]; try discriminate. eapply do_add_C; eauto.
+  - destruct (get_pc w (workers s)) as [pc|] eqn:Eg; [|discriminate].
+    apply get_pc_In in Eg; auto. destruct pc; try discriminate. inv H.
+    eapply (do_finish_C w t raised s); eauto. reflexivity.
+  - destruct (free s) eqn:Ef; [|discriminate]. destruct (sd s) eqn:Esd; try discriminate.
+    destruct (do_resize 0 s) as [s1 ls] eqn:Er. inv H.
+    apply do_resize_C in Er; auto.
+    eapply InvC_frame; eauto. apply same_runs_refl.
+  - eapply do_sd_C; eauto.
+Qed.
+
+(* ---- group D: the shutdown snapshot ------------------------------------------------ *)
+
+Definition cancelled (s : state) (t : task) : Prop :=
+  t < length (ledger s) /\ ti_st (linfo s t) = Cancelled.
+
+Record InvD (s : state) : Prop := {
+  D_cancel : sd s = SdCancel -> forall t, In t (sd_snap s) -> In t (queue s) \/ cancelled s t;
+  D_done : sd s = SdDone true -> forall t, In t (sd_snap s) -> cancelled s t
+}.
+
+Lemma InvD_init : InvD init.
+Proof. constructor; simpl; intros; discriminate. Qed.
+
+Lemma cancelled_taken : forall s t, InvC s -> cancelled s t -> t < taken s.
+Proof.
+  intros s t IC [H1 H2]. pose proof (C_led s IC t H1) as H. unfold led_ok, led_ok_at, linfo in *.
+  rewrite H2 in H. tauto.
+Qed.
+
+Lemma cancelled_same : forall s s' t, ledger s' = ledger s -> cancelled s t -> cancelled s' t.
+Proof. intros s s' t H [H1 H2]. unfold cancelled, linfo in *. rewrite H. auto. Qed.
+
+Lemma cancelled_upd : forall s s' t t0 f, ledger s' = upd t0 f (ledger s) -> t <> t0 ->
+  cancelled s t -> cancelled s' t.
+Proof.
+  intros s s' t t0 f H Hne [H1 H2]. unfold cancelled, linfo in *. rewrite H.
+  rewrite upd_length. rewrite upd_nth_other; auto.
+Qed.
+
+Lemma queue_head_taken : forall s t q, InvC s -> queue s = t :: q -> t = taken s /\ t < length (ledger s).
+Proof.
+  intros s t q IC Hq. destruct IC. rewrite Hq in C_queue0. symmetry in C_queue0.
+  apply seq_head in C_queue0. destruct C_queue0 as [E [_ Hp]]. split; auto. lia.
+Qed.
+
+Lemma do_add_frame : forall b k s s' l, InvA s -> do_add b k s = Some (s', l) ->
+  ledger s' = ledger s ++ [ti0] /\ taken s' = taken s /\ queue s' = queue s ++ [length (ledger s)] /\
+  sd s' = sd s /\ sd_snap s' = sd_snap s.
+Proof.
+  intros b k s s' l IA H. rewrite do_add_eq in H.
+  destruct (notify_q k (add_state s)) as [[s2 l2]|] eqn:E; [|discriminate]. inv H.
+  destruct (notify_q_frame _ _ _ _ (add_state_A s IA) E) as [F1 [F2 [F3 [_ [F5 F6]]]]].
+  simpl in *. auto.
+Qed.
+
+Lemma do_add_cancelled : forall b k s s' l t, InvA s -> do_add b k s = Some (s', l) ->
+  cancelled s t -> cancelled s' t.
+Proof.
+  intros b k s s' l t IA H [H1 H2].
+  destruct (do_add_frame _ _ _ _ _ IA H) as [F1 _]. unfold cancelled, linfo in *.
+  rewrite F1. rewrite app_length. simpl. split; [lia|]. rewrite app_nth1; auto.
+Qed.
+
+Lemma do_work_frame : forall w pc s s' l, do_work w pc s = Some (s', l) ->
+  sd_snap s' = sd_snap s /\ (sd s' = sd s \/ sd s' = SdAcq).
+Proof.
+  intros w pc s s' l H. unfold do_work in H.
+  destruct (queue s); destruct (stop_count s); inv H; simpl; split; auto;
+    destruct (xwait s); auto.
+Qed.
+
+Lemma do_work_cancelled : forall w pc s s' l t, InvC s -> do_work w pc s = Some (s', l) ->
+  cancelled s t -> cancelled s' t.
+Proof.
+  intros w pc s s' l t IC H Hc. pose proof (cancelled_taken s t IC Hc) as Ht.
+  unfold do_work in H.
+  destruct (queue s) as [|t0 q] eqn:Eq; destruct (stop_count s); inv H;
+    try (eapply cancelled_same; eauto; reflexivity).
+  destruct (queue_head_taken s t0 q IC Eq) as [E _].
+  eapply (cancelled_upd s _ t t0); [simpl; reflexivity | lia | auto].
+Qed.
+
+Lemma do_sd_cancelled : forall e s s' l t, InvC s -> do_sd e s = Some (s', l) ->
+  cancelled s t -> cancelled s' t.
+Proof.
+  intros e s s' l t IC H Hc. pose proof (cancelled_taken s t IC Hc) as Ht.
+  unfold do_sd in H. destruct (sd s); try discriminate.
+  - destruct (free s); [|discriminate].
+    destruct (threads s); [|destruct e]; destruct (sd_cancel s); inv H;
+      eapply cancelled_same; eauto; reflexivity.
+  - inv H. eapply cancelled_same; eauto; reflexivity.
+  - destruct (queue s) as [|t0 q] eqn:Eq; inv H.
+    + eapply cancelled_same; eauto; reflexivity.
+    + destruct (queue_head_taken s t0 q IC Eq) as [E _].
+      eapply (cancelled_upd s _ t t0); [simpl; reflexivity | lia | auto].
+Qed.
+
+Theorem step_cancelled : forall s c s' l t, InvA s -> InvC s -> step s c = Some (s', l) ->
+  cancelled s t -> cancelled s' t.
+Proof.
+  intros s c s' l t IA IC H Hc. pose proof (nodup_ws s IA) as Hnd.
+  destruct c; simpl in H.
+  - destruct (free s); [|discriminate]. eapply do_add_cancelled; eauto.
+  - destruct (free s); [|discriminate]. inv H.
+    destruct (do_resize_frame _ _ _ _ H1) as [_ [_ [_ [_ [F5 _]]]]].
+    eapply cancelled_same; eauto.
+  - destruct (free s); [|discriminate].
+    destruct (get_pc w (workers s)) as [[]|]; try discriminate; eapply do_work_cancelled; eauto.
+  - destruct (free s); [|discriminate].
+    destruct (get_pc w (workers s)) as [[]|]; try discriminate. eapply do_add_cancelled; eauto.
+  - destruct (get_pc w (workers s)) as [pc|] eqn:Eg; [|discriminate].
+    apply get_pc_In in Eg; auto. destruct pc; try discriminate. inv H.
+    destruct (C_run s IC w t0 Eg) as [_ Hr].
+    eapply (cancelled_upd s _ t t0); [simpl; reflexivity | | auto].
+    intro; subst t0. destruct Hc as [_ Hc]. unfold linfo in *. congruence.
+  - destruct (free s); [|discriminate]. destruct (sd s); try discriminate.
+    destruct (do_resize 0 s) as [s1 ls] eqn:Er. inv H.
+    destruct (do_resize_frame _ _ _ _ Er) as [_ [_ [_ [_ [F5 _]]]]].
+    eapply cancelled_same; eauto.
+  - eapply do_sd_cancelled; eauto.
+Qed.
+
+Lemma not_free_cancel : forall s, InvA s -> free s = true -> sd s <> SdCancel.
+Proof.
+  intros s IA Hf Hc. apply (A_lock1 s IA) in Hc. unfold free in Hf. rewrite Hc in Hf. discriminate.
+Qed.
+
+(* D is preserved whenever sd_snap is unchanged, the step does not enter or
+   stay in the cancel loop, and SdDone true can only come from SdDone true *)
+Lemma InvD_outside : forall s s', InvD s ->
+  sd_snap s' = sd_snap s -> sd s <> SdCancel -> (sd s' = sd s \/ sd s' = SdAcq) ->
+  (forall t, cancelled s t -> cancelled s' t) -> InvD s'.
+Proof.
+  intros s s' ID Hs Hn Hsd Hst. destruct ID. constructor; rewrite Hs.
+  - intros Hc. destruct Hsd as [E|E]; congruence.
+  - intros Hd t Hin. apply Hst. apply D_done0; auto. destruct Hsd as [E|E]; congruence.
+Qed.
+
+Theorem step_D : forall s c s' l, InvA s -> InvC s -> InvD s -> step s c = Some (s', l) -> InvD s'.
+Proof.
+  intros s c s' l IA IC ID H. pose proof (nodup_ws s IA) as Hnd.
+  assert (Hst : forall t, cancelled s t -> cancelled s' t).
+  { intros t. eapply step_cancelled; eauto. }
+  destruct c; simpl in H.
+  - destruct (free s) eqn:Ef; [|discriminate].
+    destruct (do_add_frame _ _ _ _ _ IA H) as [_ [_ [_ [F4 F5]]]].
+    eapply InvD_outside; eauto. apply not_free_cancel; auto.
+  - destruct (free s) eqn:Ef; [|discriminate]. inv H.
+    destruct (do_resize_frame _ _ _ _ H1) as [F1 [_ [_ [_ [_ [_ [F7 _]]]]]]].
+    eapply InvD_outside; eauto. apply not_free_cancel; auto.
+  - destruct (free s) eqn:Ef; [|discriminate].
+    destruct (get_pc w (workers s)) as [[]|]; try discriminate;
+      destruct (do_work_frame _ _ _ _ _ H) as [F1 F2];
+      eapply InvD_outside; eauto; apply not_free_cancel; auto.
+  - destruct (free s) eqn:Ef; [|discriminate].
+    destruct (get_pc w (workers s)) as [[]|]; try discriminate.
+    destruct (do_add_frame _ _ _ _ _ IA H) as [_ [_ [_ [F4 F5]]]].
+    eapply InvD_outside; eauto. apply not_free_cancel; auto.
+  - destruct (get_pc w (workers s)) as [[]|]; try discriminate. inv H.
+    destruct ID. constructor; simpl.
+    + intros Hc t0 Hin. destruct (D_cancel0 Hc t0 Hin) as [Hq|Hq]; auto.
+    + intros Hc t0 Hin. apply Hst. auto.
+  - destruct (free s) eqn:Ef; [|discriminate]. destruct (sd s); try discriminate.
+    destruct (do_resize 0 s) as [s1 ls] eqn:Er. inv H.
+    constructor; simpl; intros; discriminate.
+  - unfold do_sd in H. destruct (sd s) eqn:Esd; try discriminate.
+    + destruct (free s); [|discriminate].
+      assert (L : forall ls r, (if sd_cancel s
+                 then Some (set_sd s SdCancel (Some OShutdown) false (queue s), ls)
+                 else Some (set_sd s (SdDone false) None false (sd_snap s), ls ++ [LSdReturn false])) = Some r ->
+                 InvD (fst r)).
+      { intros ls r Hr. destruct (sd_cancel s); inv Hr; simpl; constructor; simpl; intros; try discriminate.
+        left. auto. }
+      destruct (threads s) eqn:Et.
+      * apply L in H. auto.
+      * destruct expired.
+        -- apply L in H. auto.
+        -- inv H. constructor; simpl; intros; discriminate.
+    + inv H. constructor; simpl; intros; discriminate.
+    + destruct (queue s) as [|t0 q] eqn:Eq.
+      * inv H. destruct ID. constructor; simpl; [intros; discriminate|].
+        intros _ t Hin. apply Hst. destruct (D_cancel0 Esd t Hin) as [Hq|Hc]; auto.
+        rewrite Eq in Hq. destruct Hq.
+      * assert (Hs' : sd s' = SdCancel /\ sd_snap s' = sd_snap s /\ queue s' = q /\
+                       ledger s' = upd t0 (fun i => mkTi Cancelled (ti_svc i) (S (ti_cnc i))) (ledger s)).
+        { inv H. simpl. auto. }
+        destruct Hs' as [S1 [S2 [S3 S4]]].
+        destruct (queue_head_taken s t0 q IC Eq) as [E0 Hlt].
+        destruct ID. constructor; rewrite S1, S2; [|intros; discriminate].
+        intros _ t Hin. rewrite S3. destruct (D_cancel0 Esd t Hin) as [Hq|Hc].
+        -- rewrite Eq in Hq. destruct Hq as [Hq|Hq]; auto. subst t. right.
+           unfold cancelled, linfo. rewrite S4. rewrite upd_length. split; auto.
+           rewrite upd_nth_same; auto.
+        -- right. auto.
+Qed.
+
+(* ---- everything together ------------------------------------------------------------ *)
+
+Record Inv (s : state) : Prop := {
+  inv_A : InvA s; inv_B : InvB s; inv_C : InvC s; inv_D : InvD s
+}.
+
+Theorem Inv_init : Inv init.
+Proof. constructor. apply InvA_init. apply InvB_init. apply InvC_init. apply InvD_init. Qed.
+
+Theorem Inv_step : forall s c s' l, Inv s -> step s c = Some (s', l) -> Inv s'.
+Proof.
+  intros s c s' l [IA IB IC ID] H. constructor.
+  - eapply step_A; eauto.
+  - eapply step_B; eauto.
+  - eapply step_C; eauto.
+  - eapply step_D; eauto.
+Qed.
